@@ -8,11 +8,13 @@ import VaxisModel.Lemmas.RenderToks
 import VaxisModel.Lemmas.RenderRow
 import VaxisModel.Lemmas.RenderPen
 import VaxisModel.Spec.Expected
+import VaxisModel.Props.C01
 
 namespace VaxisModel.Lemmas.RenderDisplay
 open VaxisModel.Model.Render VaxisModel.Spec VaxisModel.Spec.Display
 open VaxisModel.Lemmas.RenderToks VaxisModel.Lemmas.RenderRow VaxisModel.Lemmas.RenderPen
 open VaxisModel.Spec.Expected
+open VaxisModel.Props.C01 (FitsRow Fits)
 
 /-- Hyperlink parameters as the terminal stores them: none when no hyperlink is open. -/
 def lpOf (s : Style) : String := if s.link = "" then "" else s.linkParams
@@ -369,5 +371,230 @@ theorem cell_write (cw : String → Nat) (caps : Caps) (hsp : cw "20" = 1) (t : 
     have := p4 (by rw [hc2.col, c2, c1]; omega)
     rw [hc2.col] at this
     exact ⟨by rw [this.1]; omega, this.2⟩
+
+/-- Tokens written for one changed cell. -/
+def cellToks (cw : String → Nat) (caps : Caps) (st : RSt) (row col : Nat) (n : Cell) : List Tok :=
+  (if st.reposition then
+      (if st.pen.link ≠ "" then [Tok.osc8 "" ""] else []) ++ [Tok.cup (row + 1) (col + 1)]
+    else []) ++
+  penDelta caps (if st.reposition ∧ st.pen.link ≠ "" then { st.pen with link := "", linkParams := "" } else st.pen) n.style ++
+  [glyphTok cw caps n]
+
+theorem renderCells_write_eq (cw : String → Nat) (caps : Caps) (refresh : Bool) (row col : Nat) (track : Bool)
+    (dirty : Nat) (n l : Cell) (ns ls : List Cell) (st : RSt) (h : n.sixel = false)
+    (hc : ¬ (n = l ∧ ¬ refresh ∧ col ≥ dirty)) :
+    renderCells cw caps refresh row col 0 track dirty (n :: ns) (l :: ls) st =
+      (n :: (renderCells cw caps refresh row (col + 1) (advance cw n) true
+              (if col + advance cw l + 1 > dirty then col + advance cw l + 1 else dirty) ns ls
+              { reposition := false, pen := n.style, out := st.out ++ cellToks cw caps st row col n }).1,
+       (renderCells cw caps refresh row (col + 1) (advance cw n) true
+              (if col + advance cw l + 1 > dirty then col + advance cw l + 1 else dirty) ns ls
+              { reposition := false, pen := n.style, out := st.out ++ cellToks cw caps st row col n }).2) := by
+  simp only [renderCells, h, hc, Bool.false_eq_true, if_false]
+  rfl
+
+theorem renderCells_equal_eq (cw : String → Nat) (caps : Caps) (refresh : Bool) (row col : Nat) (track : Bool)
+    (dirty : Nat) (n l : Cell) (ns ls : List Cell) (st : RSt) (h : n.sixel = false)
+    (hc : n = l ∧ ¬ refresh ∧ col ≥ dirty) :
+    renderCells cw caps refresh row col 0 track dirty (n :: ns) (l :: ls) st =
+      (l :: (renderCells cw caps refresh row (col + 1) (advance cw n) false dirty ns ls { st with reposition := true }).1,
+       (renderCells cw caps refresh row (col + 1) (advance cw n) false dirty ns ls { st with reposition := true }).2) := by
+  simp only [renderCells]
+  rw [if_neg (by simp [h]), if_pos hc]
+
+/-! ### The cell loop of one row -/
+
+/-- What one run of the cell loop over (the rest of) a row achieves. `G R C` are the grid and the
+    dimensions of the terminal before, `P` the finished part of the row. -/
+def CellsPost (cw : String → Nat) (caps : Caps) (row : Nat) (t0 : Term) (G : List (List DCell)) (R C : Nat)
+    (P : List DCell) (skip : Nat) (ns : List Cell) (res : List Cell × RSt) : Prop :=
+  (run cw t0 res.2.out).grid = G.set row (P ++ expectedRow cw caps skip ns) ∧
+  (run cw t0 res.2.out).rows = R ∧ (run cw t0 res.2.out).cols = C ∧
+  (run cw t0 res.2.out).bad = none ∧ (run cw t0 res.2.out).pen = shown caps res.2.pen ∧
+  (run cw t0 res.2.out).link = res.2.pen.link ∧ (run cw t0 res.2.out).linkParams = lpOf res.2.pen ∧
+  expectedRow cw caps skip res.1 = expectedRow cw caps skip ns ∧ res.1.length = ns.length
+
+theorem set_self {α : Type} (l : List α) (i : Nat) (a : α) (h : l[i]? = some a) : l.set i a = l := by
+  apply List.ext_getElem?
+  intro j
+  rw [List.getElem?_set]
+  split
+  · rename_i e; subst e
+    have : i < l.length := by
+      rcases Nat.lt_or_ge i l.length with h' | h'
+      · exact h'
+      · rw [List.getElem?_eq_none h'] at h; simp at h
+    simp only [this, if_true]; exact h.symm
+  · rfl
+
+theorem post_nil (cw : String → Nat) (caps : Caps) (row : Nat) (t0 : Term) (P : List DCell) (skip : Nat)
+    (st : RSt) (pos : Nat) (hg : (run cw t0 st.out).grid[row]? = some P)
+    (hinv : TInv caps (run cw t0 st.out) st row pos) :
+    CellsPost cw caps row t0 (run cw t0 st.out).grid (run cw t0 st.out).rows (run cw t0 st.out).cols P skip []
+      ([], st) := by
+  have : expectedRow cw caps skip [] = [] := by cases skip <;> rfl
+  unfold CellsPost
+  rw [this, List.append_nil, set_self _ _ _ hg]
+  exact ⟨rfl, rfl, rfl, hinv.bad, hinv.pen, hinv.link, hinv.lp, rfl, rfl⟩
+
+theorem post_skip (cw : String → Nat) (caps : Caps) (row : Nat) (t0 : Term) (G : List (List DCell)) (R C : Nat)
+    (P : List DCell) (skip : Nat) (n : Cell) (ns : List Cell) (res : List Cell × RSt)
+    (h : CellsPost cw caps row t0 G R C (P ++ [DCell.cont]) skip ns res) :
+    CellsPost cw caps row t0 G R C P (skip + 1) (n :: ns) (({} : Cell) :: res.1, res.2) := by
+  obtain ⟨h1, h2, h3, h4, h5, h6, h7, h8, h9⟩ := h
+  refine ⟨?_, h2, h3, h4, h5, h6, h7, ?_, ?_⟩
+  · rw [h1]; simp [expectedRow]
+  · simp only [expectedRow, h8]
+  · simp [h9]
+
+theorem post_head (cw : String → Nat) (caps : Caps) (row : Nat) (t0 : Term) (G G' : List (List DCell)) (R C : Nat)
+    (P : List DCell) (n : Cell) (ns : List Cell) (res : List Cell × RSt)
+    (hG : ∀ Y, G'.set row Y = G.set row Y)
+    (h : CellsPost cw caps row t0 G' R C (P ++ [expectedCell cw caps n]) (advance cw n) ns res) :
+    CellsPost cw caps row t0 G R C P 0 (n :: ns) (n :: res.1, res.2) := by
+  obtain ⟨h1, h2, h3, h4, h5, h6, h7, h8, h9⟩ := h
+  refine ⟨?_, h2, h3, h4, h5, h6, h7, ?_, ?_⟩
+  · rw [h1, hG]; simp [expectedRow, adv_eq]
+  · simp only [expectedRow, ← adv_eq, h8]
+  · simp [h9]
+
+theorem renderCells_display (cw : String → Nat) (caps : Caps) (refresh : Bool) (row : Nat) (hsp : cw "20" = 1)
+    (t0 : Term) :
+    ∀ (ns ls : List Cell) (col skip : Nat) (track : Bool) (dirty : Nat) (st : RSt) (V : List VCell) (k : Nat)
+      (P : List DCell) (t : Term), run cw t0 st.out = t →
+      ns.length = ls.length → V.length = ns.length → (∀ v ∈ V, VOk v) →
+      t.grid[row]? = some (P ++ sRow skip k V) → P.length = col → col + ns.length = t.cols → row < t.rows →
+      (refresh = false → V = ls.map (phi cw caps) ∧ (skip < k → col + k ≤ dirty) ∧ (track = false → k = skip)) →
+      FitsRow cw skip ns → (∀ c ∈ ns, c.sixel = false ∧ 0 ≤ c.w ∧ WidthOk cw caps c) →
+      TInv caps t st row (col + skip) →
+      CellsPost cw caps row t0 t.grid t.rows t.cols P skip ns
+        (renderCells cw caps refresh row col skip track dirty ns ls st) := by
+  intro ns
+  induction ns with
+  | nil =>
+    intro ls col skip track dirty st V k P t ht hl hV hok hg hP hcols hr href hfit hcells hinv
+    have hV0 : V = [] := by simpa using hV
+    subst hV0
+    have hs : sRow skip k [] = [] := by cases skip <;> cases k <;> rfl
+    rw [hs, List.append_nil] at hg
+    subst ht
+    simp only [renderCells]
+    exact post_nil cw caps row t0 P skip st _ hg hinv
+  | cons n ns ih =>
+    intro ls col skip track dirty st V k P t ht hl hV hok hg hP hcols hr href hfit hcells hinv
+    cases ls with
+    | nil => simp at hl
+    | cons l ls =>
+      cases V with
+      | nil => simp at hV
+      | cons v vs =>
+        have hl' : ns.length = ls.length := by simpa using hl
+        have hV' : vs.length = ns.length := by simpa using hV
+        have hok' : ∀ x ∈ vs, VOk x := fun x hx => hok x (by simp [hx])
+        have hcells' : ∀ c ∈ ns, c.sixel = false ∧ 0 ≤ c.w ∧ WidthOk cw caps c := fun c hc => hcells c (by simp [hc])
+        cases skip with
+        | succ skip =>
+          simp only [renderCells]
+          apply post_skip
+          have hg' : t.grid[row]? = some ((P ++ [DCell.cont]) ++ sRow skip (nextL k v) vs) := by
+            rw [hg]; simp [sRow]
+          refine ih ls (col + 1) skip track _ st vs (nextL k v) (P ++ [DCell.cont]) t ht hl' hV' hok' hg'
+            (by simp [hP]) (by simp at hcols; omega) hr ?_ hfit hcells' ?_
+          · intro hrf
+            obtain ⟨e1, e2, e3⟩ := href hrf
+            simp only [List.map_cons, List.cons.injEq] at e1
+            have hv2 : v.2 = advance cw l := by rw [e1.1]; rfl
+            refine ⟨e1.2, ?_, ?_⟩
+            · intro hlt
+              cases track with
+              | false =>
+                have := e3 rfl
+                subst this
+                simp [nextL] at hlt
+              | true =>
+                simp only [true_and]
+                by_cases hk : k = 0
+                · subst hk
+                  simp only [nextL, if_true, hv2] at hlt ⊢
+                  split <;> omega
+                · have hn : nextL k v = k - 1 := by simp [nextL, hk]
+                  rw [hn] at hlt ⊢
+                  have := e2 (by omega)
+                  split <;> omega
+            · intro htr
+              have := e3 htr
+              subst this
+              simp [nextL]
+          · have : col + 1 + skip = col + (skip + 1) := by omega
+            rw [this]; exact hinv
+        | zero =>
+          obtain ⟨hsx, hw0, hwok⟩ := hcells n (by simp)
+          have hfit0 : (cellWidth cw n).toNat ≤ (n :: ns).length ∧ FitsRow cw ((cellWidth cw n).toNat - 1) ns := hfit
+          by_cases hc : n = l ∧ ¬ refresh ∧ col ≥ dirty
+          · rw [renderCells_equal_eq cw caps refresh row col track dirty n l ns ls st hsx hc]
+            obtain ⟨hnl, hrf, hcd⟩ := hc
+            have hrf' : refresh = false := by simpa using hrf
+            obtain ⟨e1, e2, e3⟩ := href hrf'
+            have hk : k = 0 := by
+              rcases Nat.eq_zero_or_pos k with h | h
+              · exact h
+              · have := e2 h; omega
+            subst hk; subst hnl
+            simp only [List.map_cons, List.cons.injEq] at e1
+            obtain ⟨ev, evs⟩ := e1
+            apply post_head cw caps row t0 t.grid t.grid _ _ P n ns _ (fun _ => rfl)
+            have hg' : t.grid[row]? = some ((P ++ [expectedCell cw caps n]) ++ sRow (advance cw n) (advance cw n) vs) := by
+              rw [hg, ev]; simp [sRow, phi, sRow_diag]
+            exact ih ls (col + 1) (advance cw n) false dirty { st with reposition := true } vs (advance cw n)
+              (P ++ [expectedCell cw caps n]) t ht hl' hV' hok' hg' (by simp [hP]) (by simp at hcols; omega) hr
+              (fun _ => ⟨evs, by omega, fun _ => rfl⟩) (by rw [adv_eq]; exact hfit0.2) hcells'
+              ⟨hinv.bad, hinv.pen, hinv.link, hinv.lp, by intro h; simp at h⟩
+          · rw [renderCells_write_eq cw caps refresh row col track dirty n l ns ls st hsx hc]
+            have hfitw : advance cw n + 1 ≤ (v :: vs).length := by
+              rw [adv_eq]; simp only [List.length_cons, hV'] at hfit0 ⊢; omega
+            have hcw := cell_write cw caps hsp t st row col n P k v vs (by simpa using hinv) hr
+              (by simp only [List.length_cons, hV'] at hcols ⊢; omega) hg hP hok hfitw hw0 hwok
+            generalize hst' : (RSt.mk false n.style (st.out ++ cellToks cw caps st row col n)) = st'
+            have hcw' : (run cw t (cellToks cw caps st row col n)).grid
+                  = t.grid.set row (P ++ expectedCell cw caps n :: sRow (advance cw n) (nextL k v) vs) ∧
+                (run cw t (cellToks cw caps st row col n)).rows = t.rows ∧
+                (run cw t (cellToks cw caps st row col n)).cols = t.cols ∧
+                TInv caps (run cw t (cellToks cw caps st row col n)) { reposition := false, pen := n.style, out := st'.out }
+                  row (col + 1 + advance cw n) := hcw st'.out
+            generalize ht' : run cw t (cellToks cw caps st row col n) = t' at hcw'
+            obtain ⟨g1, r1, c1, inv1⟩ := hcw'
+            have hrun : run cw t0 st'.out = t' := by
+              rw [← hst', ← ht', ← ht, run_append]
+            have hst'e : ({ reposition := false, pen := n.style, out := st'.out } : RSt) = st' := by
+              rw [← hst']
+            rw [hst'e] at inv1
+            have hg' : t'.grid[row]? = some ((P ++ [expectedCell cw caps n]) ++ sRow (advance cw n) (nextL k v) vs) := by
+              rw [g1, List.getElem?_set]
+              have : row < t.grid.length := by
+                rcases Nat.lt_or_ge row t.grid.length with h' | h'
+                · exact h'
+                · rw [List.getElem?_eq_none h'] at hg; simp at hg
+              simp [this]
+            have hpost := ih ls (col + 1) (advance cw n) true
+              (if col + advance cw l + 1 > dirty then col + advance cw l + 1 else dirty) st' vs (nextL k v)
+              (P ++ [expectedCell cw caps n]) t' hrun hl' hV' hok' hg' (by simp [hP])
+              (by rw [c1]; simp at hcols; omega) (by rw [r1]; exact hr) ?_ (by rw [adv_eq]; exact hfit0.2) hcells' inv1
+            · rw [r1, c1] at hpost
+              refine post_head cw caps row t0 t.grid t'.grid _ _ P n ns _ ?_ hpost
+              intro Y; rw [g1, List.set_set]
+            · intro hrf
+              obtain ⟨e1, e2, e3⟩ := href hrf
+              simp only [List.map_cons, List.cons.injEq] at e1
+              have hv2 : v.2 = advance cw l := by rw [e1.1]; rfl
+              refine ⟨e1.2, ?_, fun h => by simp at h⟩
+              intro hlt
+              by_cases hk : k = 0
+              · subst hk
+                simp only [nextL, if_true, hv2] at hlt ⊢
+                split <;> omega
+              · have hn : nextL k v = k - 1 := by simp [nextL, hk]
+                rw [hn] at hlt ⊢
+                have := e2 (by omega)
+                split <;> omega
 
 end VaxisModel.Lemmas.RenderDisplay
